@@ -52,6 +52,7 @@ pub fn draw_knobs(rng: &mut Rng) -> Knobs {
             _ => FmtShape::Plain,
         },
         nested_sibling: rng.coin(),
+        fresh_instance: rng.below(3) == 0,
     }
 }
 
@@ -199,6 +200,7 @@ pub fn enumerate_value(value: &ValueSpec, stats: &mut Stats, mut f: impl FnMut(&
             Knobs { sync_each_write: true, ..Knobs::default() },
             Knobs { bufwriter: Some(3), sync_each_write: true, ..Knobs::default() },
             Knobs { nested_sibling: true, ..Knobs::default() },
+            Knobs { fresh_instance: true, ..Knobs::default() },
         ];
         if is_list {
             k.push(Knobs { pretty: true, ..Knobs::default() });
@@ -220,15 +222,17 @@ pub fn enumerate_value(value: &ValueSpec, stats: &mut Stats, mut f: impl FnMut(&
     n += 1;
 
     // formatter sink: every write_str index x {transient, sticky}, in each shape
-    for (shape, sibling) in [
-        (FmtShape::Plain, false),
-        (FmtShape::Framed, false),
-        (FmtShape::Twice, false),
-        (FmtShape::Plain, true),
+    for (shape, sibling, fresh) in [
+        (FmtShape::Plain, false, false),
+        (FmtShape::Framed, false, false),
+        (FmtShape::Twice, false, false),
+        (FmtShape::Plain, true, false),
+        (FmtShape::Plain, false, true),
     ] {
         let mut p = Plan::fault_free(value.clone());
         p.knobs.fmt_shape = shape;
         p.knobs.nested_sibling = sibling;
+        p.knobs.fresh_instance = fresh;
         let calls = if shape == FmtShape::Plain {
             counts.fmt_calls
         } else {
@@ -238,6 +242,8 @@ pub fn enumerate_value(value: &ValueSpec, stats: &mut Stats, mut f: impl FnMut(&
         for k in 0..calls {
             let kinds: &[FDec] = if sibling {
                 &[FDec::Reenter]
+            } else if fresh {
+                &[FDec::FailTransient, FDec::FailSticky]
             } else {
                 &[FDec::FailTransient, FDec::FailSticky, FDec::Reenter]
             };
@@ -261,23 +267,33 @@ pub fn enumerate_value(value: &ValueSpec, stats: &mut Stats, mut f: impl FnMut(&
             execute(&p, None, stats).counts.write_lens
         };
         for (k, &len) in lens.iter().enumerate() {
-            let mut kinds = vec![
-                WDec::Eintr,
-                WDec::HardTransient,
-                WDec::HardSticky,
-                WDec::Full,
-                WDec::Lost,
-                WDec::Reenter,
-            ];
-            if len >= 2 {
+            // the two knob sets that exist for one purpose get the kinds that serve it
+            let reduced = knobs.nested_sibling || knobs.fresh_instance;
+            let mut kinds = if knobs.nested_sibling {
+                vec![WDec::Reenter]
+            } else if knobs.fresh_instance {
+                vec![WDec::HardTransient, WDec::HardSticky, WDec::Full, WDec::Crash { keep_call: 0, keep_tail: usize::MAX }]
+            } else {
+                vec![
+                    WDec::Eintr,
+                    WDec::HardTransient,
+                    WDec::HardSticky,
+                    WDec::Full,
+                    WDec::Lost,
+                    WDec::Reenter,
+                ]
+            };
+            if len >= 2 && !reduced {
                 kinds.push(WDec::Short(1));
                 kinds.push(WDec::Short(usize::MAX));
             }
             // crash at every byte of this call, with the unflushed tail surviving fully, not at
             // all, or partly
-            for keep_call in 0..=len {
-                for keep_tail in [usize::MAX, 0, 1, (counts.record_len / 2).max(2)] {
-                    kinds.push(WDec::Crash { keep_call, keep_tail });
+            if !reduced {
+                for keep_call in 0..=len {
+                    for keep_tail in [usize::MAX, 0, 1, (counts.record_len / 2).max(2)] {
+                        kinds.push(WDec::Crash { keep_call, keep_tail });
+                    }
                 }
             }
             for d in kinds {
@@ -285,6 +301,9 @@ pub fn enumerate_value(value: &ValueSpec, stats: &mut Stats, mut f: impl FnMut(&
                 q.write_sched = prefix(WDec::Accept, k, d);
                 exec(&q, stats, &mut f);
                 n += 1;
+            }
+            if reduced {
+                continue;
             }
             // EINTR directly followed by a hard error on the retry
             let mut q = p.clone();
@@ -440,6 +459,10 @@ pub struct ReproCtx<'a> {
 /// alone if it fails in isolation, otherwise the plan together with the minimised list of
 /// earlier runs of its thread (hidden state in the code under test).
 pub fn reproduce(f: &Found, ctx: &ReproCtx) -> Repro {
+    // reporting must stay bounded: a history of hundreds of runs is shrunk only as far as the
+    // budget allows, and what is left still replays exactly
+    let deadline = std::time::Instant::now() + std::time::Duration::from_secs(25);
+    let out_of_time = || std::time::Instant::now() > deadline;
     let class = f.violation.class.as_str();
     if still_fails(&f.plan, class) {
         let (plan, attempts) = minimise(&f.plan, class);
@@ -497,22 +520,38 @@ pub fn reproduce(f: &Found, ctx: &ReproCtx) -> Repro {
         }
         k *= 2;
     }
-    let mut i = prior.len();
-    let mut budget = 600;
-    while i > 0 && budget > 0 {
-        i -= 1;
-        budget -= 1;
-        let mut cand = prior.clone();
-        cand.remove(i);
-        attempts += 1;
-        if history_fails(&cand, &f.plan, class) {
-            prior = cand;
+    // drop blocks of earlier runs (halves, quarters, ...), then single runs
+    let mut block = (prior.len() / 2).max(1);
+    while block >= 1 && !out_of_time() {
+        let mut start = 0usize;
+        while start < prior.len() && !out_of_time() {
+            let end = (start + block).min(prior.len());
+            let mut cand = prior.clone();
+            cand.drain(start..end);
+            attempts += 1;
+            if history_fails(&cand, &f.plan, class) {
+                prior = cand;
+            } else {
+                start = end;
+            }
         }
+        if block == 1 {
+            break;
+        }
+        block /= 2;
     }
-    // then the plans themselves: the failing one, and each remaining earlier one
-    let (plan, a) = minimise_with(&f.plan, &|p| history_fails(&prior, p, class));
+    // then the plans themselves: the failing one, and (for short histories) each earlier one
+    let (plan, a) = if out_of_time() {
+        (f.plan.clone(), 0)
+    } else {
+        minimise_with(&f.plan, &|p| !out_of_time() && history_fails(&prior, p, class))
+    };
     attempts += a;
-    for i in 0..prior.len() {
+    let shrink_priors = if prior.len() <= 8 { prior.len() } else { 0 };
+    for i in 0..shrink_priors {
+        if out_of_time() {
+            break;
+        }
         let (shrunk, a) = minimise_with(&prior[i], &|p| {
             let mut h = prior.clone();
             h[i] = p.clone();
@@ -774,7 +813,10 @@ pub fn minimise_with(plan: &Plan, fails: &dyn Fn(&Plan) -> bool) -> (Plan, u64) 
                 0 => c.knobs.bufwriter = None,
                 1 => c.knobs.sync_each_write = false,
                 2 => c.knobs.pretty = false,
-                3 => c.knobs.nested_sibling = false,
+                3 => {
+                    c.knobs.nested_sibling = false;
+                    c.knobs.fresh_instance = false;
+                }
                 _ => c.knobs.fmt_shape = FmtShape::Plain,
             }
             progress |= attempt(c, &mut best, &mut tried);
@@ -946,6 +988,7 @@ pub fn history_fails_in_child(prior: &[Plan], last: &Plan, class: &str) -> bool 
     };
     let st = std::process::Command::new(exe)
         .arg("exec-history")
+        .arg("--no-reenter")
         .arg("--replay")
         .arg(&path)
         .stdout(std::process::Stdio::null())
@@ -1042,6 +1085,7 @@ pub fn reproduce_in_processes(prop: Prop, seed: u64, runs: u64, enum_extra: usiz
     let st = std::process::Command::new(exe)
         .arg("sequential-find")
         .arg(prop.id())
+        .arg("--no-reenter")
         .arg("--seed")
         .arg(seed.to_string())
         .arg("--runs")
